@@ -13,9 +13,9 @@ PID = "C10"
 RULE = ("histories of constructions, in-place transformations, operators (general-position operands, which get split in "
         "place) and queries; then a battery of queries -- float(S), float(curve) (cached signed length) of every curve, "
         "box, containment of fixed points, S == deepcopy(S), S op T for a third shape T, T in S -- asked of the LIVE object "
-        "and of a deep copy built just before, and the same operator evaluated before and after the others on the same "
+        "of a deep copy built just before and of an object rebuilt from the current coordinates alone, and the same operator evaluated before and after the others on the same "
         "operands; a sample of histories is re-executed in a second process with another PYTHONHASHSEED and cold module "
-        "caches; shapes of different segment degrees (square, circle, cubic blob, triangle) queried in different orders, "
+        "caches; warm object / copy / one of the two transformed / the other asked; shapes of different segment degrees (square, circle, cubic blob, triangle) queried in different orders, "
         "each order in its own cold process, and in the warm checking process; non-trivial = the history contains an operator or scale/rotate before the queries; distinct = SHA-1")
 PROOF_STATUS = ("Props/C10.v: cache coherence + identity structure are invariants of every operation; a containment query on "
                 "the live object equals the value model on the current geometry in every reachable state; stale-cache "
@@ -41,6 +41,14 @@ def cases(ctx):
                   ("move", probe, (F(7), F(-2))), ("scale", probe, (F(-1, 2), F(-2)))][i % 8]
             warm = [("float", probe), ("contains", probe, (F(0), F(0)), True)][i % 2]
             h = h + [warm, tr]
+            if i % 3 == 2:
+                # warm object, a copy of it, the COPY (or the original) transformed, then the other one is asked
+                nv = len(env)
+                mv = ("move", nv, (F(10), F(-3))) if i % 2 else ("scale", nv, (F(3), F(2)))
+                h = h + [("contains", probe, (F(1), F(1)), True), ("copy", probe), mv]
+                if i % 4 == 0:
+                    h = h + [("move", probe, (F(-7), F(5)))]
+                    probe = nv
         yield {"hist": h, "probe": probe, "proc": i % 6 == 0}
     for i in range(ctx.n(6, 150)):
         from .. import opcases as OC
@@ -140,7 +148,10 @@ def run_history_answers(hist, probe):
     S = env[probe]
     fresh = copy.deepcopy(S)
     T2 = copy.deepcopy(T)
-    return _battery(S, T), _battery(fresh, T2)
+    # a third object built from nothing but the current coordinates (no cache can have survived)
+    isfloat = any(isinstance(x, float) for j in getattr(S, "jordans", ()) for sg in j.segments for p in sg.ctrlpoints for x in (p[0], p[1]))
+    rebuilt = I.mk_shape(I.shape_data(S), "float" if isfloat else "frac")
+    return _battery(S, T), _battery(fresh, T2), _battery(rebuilt, copy.deepcopy(T))
 
 
 def check(ctx, case):
@@ -185,11 +196,15 @@ def check(ctx, case):
     r = I.outcome(lambda: run_history_answers(hist, probe))
     if r[0] != "ok":
         return [Fail(kind="O", what="history / battery raised", impl=r)]
-    live, fresh = r[1]
+    live, fresh, rebuilt = r[1]
     if not _close(live, fresh):
         bad = [k for k in live if not _close(live[k], fresh.get(k))]
         fails.append(Fail(kind="O", what="live object answers differently from its deep copy: %s" % bad,
                           impl={k: str(live[k])[:200] for k in bad}, expected={k: str(fresh.get(k))[:200] for k in bad}))
+    if not _close(live, rebuilt):
+        bad = [k for k in live if not _close(live[k], rebuilt.get(k))]
+        fails.append(Fail(kind="O", what="live object answers differently from an object rebuilt from its current coordinates: %s" % bad,
+                          impl={k: str(live[k])[:200] for k in bad}, expected={k: str(rebuilt.get(k))[:200] for k in bad}))
     # asking twice gives the same answers
     r2 = I.outcome(lambda: run_history_answers(hist, probe))
     if r2[0] != "ok" or not _close(r2[1][0], live):
@@ -262,5 +277,5 @@ if __name__ == "__main__":
     c = ser.from_j(raw)
     hist = [tuple(op) for op in c["hist"]]
     hist = [tuple(tuple(x) if isinstance(x, list) and op[0] != "new" else x for x in op) for op in hist]
-    live, _ = run_history_answers(hist, c["probe"])
+    live = run_history_answers(hist, c["probe"])[0]
     print(json.dumps(_plain(live)))
